@@ -10,7 +10,7 @@ from .common import Ctx
 THEOREMS = {
     "C07": ["C07_deadline_armed_at_call", "C07_deadline_wakes_caller", "C07_wake_answers", "C07_send_limit_is_sources", "C07_cap_is_20_seconds",
             "C07_result_belongs", "C07_result_belongs_nonvacuous", "C07_foreign_packet_ignored", "C07_own_null_entry_answers"],
-    "C08": ["C08_tx_count_le_limit", "C08_limit_formula", "C08_backoff_delay_bound", "C08_retry_ladder", "C08_tx_after_answer_refuted", "C08_caps_as_stated",
+    "C08": ["C08_tx_count_le_limit", "C08_limit_formula", "C08_backoff_delay_bound", "C08_retry_ladder", "C08_backoff_across_commands", "C08_tx_after_answer_refuted", "C08_caps_as_stated",
             "C08_queue_ordered", "C08_next_is_least_pending", "C08_priority_then_arrival_witness",
             "C08_one_in_flight", "C08_current_is_holder", "C08_one_in_flight_nonvacuous", "C08_slot_changes_hands"],
     "C09": ["C09_no_crash_refuted", "C09_counters_consistent_partial", "C09_caller_wake_answers", "C09_cancel_schedules_wake", "C09_cancelled_caller_answered"],
@@ -50,6 +50,16 @@ def special_scenarios():
                 "cmds": [{"kind": "rq30c9", "idx": i, "prio": 0, "max_retries": 3, "timeout": 20_000_000, "wfr": False} for i in range(3)],
                 "events": [(0, ("made",)), (G, ("call", 0)), (2 * G, ("call", 1)), (3 * G, ("call", 2))], "plan": [],
                 "default_plan": {"lat": 0, "fail": False, "echo": None, "rply": None}})
+    # "the wait doubling (up to 8x) after each unanswered attempt" ACROSS commands: a silent device is backed off from, whichever command meets the silence.
+    # Four single-attempt commands 10 s apart, nothing answers: they fail after 0.5, 1, 2 and 4 s; and after a command that used its whole budget
+    # (0.5 + 1 + 2 + 4 s) the next single attempt waits the full 4 s
+    silent = {"lat": 0, "fail": False, "echo": None, "rply": None}
+    out.append({"lifo": False, "mode": False, "cmds": [{"kind": "rq30c9", "idx": i, "prio": 0, "max_retries": 0, "timeout": 20_000_000, "wfr": False} for i in range(5)],
+                "events": [(0, ("made",))] + [(G * (1 + 640 * i), ("call", i)) for i in range(5)], "plan": [], "default_plan": silent,
+                "expect_fail_after": [500_000, 1_000_000, 2_000_000, 4_000_000, 4_000_000]})
+    out.append({"lifo": False, "mode": False, "cmds": [{"kind": "rq30c9", "idx": 0, "prio": 0, "max_retries": 3, "timeout": 20_000_000, "wfr": False},
+                                                       {"kind": "rq30c9", "idx": 1, "prio": 0, "max_retries": 0, "timeout": 20_000_000, "wfr": False}],
+                "events": [(0, ("made",)), (G, ("call", 0)), (G * 641, ("call", 1))], "plan": [], "default_plan": silent, "expect_fail_after": [7_500_000, 4_000_000]})
     # two callers send the SAME frame; the queued one times out while the first is still retrying
     out.append({"lifo": False, "mode": False,
                 "cmds": [{"kind": "rq30c9", "idx": 1, "prio": 0, "max_retries": 3, "timeout": 20_000_000, "wfr": False},
@@ -413,6 +423,13 @@ def oracle(ctx: Ctx, pid: str, s, tr, st, qs, info) -> None:
                     if len(writes[i]) < limit:
                         ctx.violation("given-up-before-budget-used", "a command failed before its timeout although it had been transmitted fewer than 1 + min(max_retries, 3) times",
                                       {**case, "cmd": i, "writes": writes[i], "limit": limit, "failed_at": dones[i][0][1]}, "schedule")
+        for i, want_us in enumerate(s.get("expect_fail_after", [])):
+            got = dones[i][0] if dones[i] else None
+            if got is None or got[0] != 3 or got[1] != calls[i] + want_us:
+                ctx.violation("backoff-not-carried-across-commands", f"with nothing answering, command {i} should fail {want_us / 1e6} s after its call (the wait doubles after each unanswered "
+                              f"attempt, whichever command it belonged to, up to 8 x 0.5 s); it ended with {got} (call at {calls[i]})",
+                              {**case, "cmd": i, "expected_failure_at": calls[i] + want_us}, "schedule")
+                break
         # the plain ladder: single caller, nothing answers, no transport latency, generous timeout
         if (len(cmds) == 1 and not s["plan"] and s["default_plan"]["echo"] is None and not slow and cmds[0]["timeout"] >= 16_000_000
                 and len(s["events"]) == 2):
